@@ -170,7 +170,4 @@ JobsFor(p) ==
    CASE p = "C01" -> Jobs_C01 [] p = "C02" -> Jobs_C02 [] p = "C03" -> Jobs_C03 [] p = "C04" -> Jobs_C04
      [] p = "C06" -> Jobs_C06 [] p = "C13" -> Jobs_C13 [] p = "C15" -> Jobs_C15 [] p = "C18" -> Jobs_C18
 
-ASSUME LET js == JobsFor(IOEnv.FX_PROP) IN
-       /\ ndJsonSerialize(IOEnv.FX_JOBS, js)
-       /\ PrintT(<<"jobs", IOEnv.FX_PROP, Tier, Len(js)>>)
 =============================================================================
